@@ -145,6 +145,19 @@ void harness (void)
           R[i].anode = NULL; R[i].cost = 0; R[i].has_tr = 0;
         }
     }
+  else if (family == 5)
+    { /* three rules, the first two with at most one symbol, the third with two: a defect in the middle of a right-hand side
+         (undeclared or unproductive symbol) in front of a symbol that is reachable only through this rule */
+      int pool = (int) sx_param ("pool", 5);
+      nr = 3;
+      for (i = 0; i < nr; i++)
+        {
+          R[i].lhs = i == 0 ? "S" : spool[sx_choice ("lhs", 2)];
+          R[i].n = i == 2 ? 2 : sx_choice ("rhslen", 2);
+          for (j = 0; j < R[i].n; j++) R[i].rhs[j] = spool[sx_choice ("rhs", pool)];
+          R[i].anode = NULL; R[i].cost = 0; R[i].has_tr = 0;
+        }
+    }
   else if (family == 2)
     { /* translation of one rule: abstract node or not, cost symbolic over all int, list elements symbolic */
       int len;
